@@ -297,6 +297,17 @@ def rule_rng(ctx):
                         'Random signature accepts; rand_seed installs a fresh Random(x); new threads inherit the current '
                         'thread generator; nothing reseeds an inherited generator in place')
     repo = ctx.repo
+    # whose generator a draw uses: main._rgen goes through the process-wide `current_tt`, which a clock thread points at the routine
+    # it is running; a draw made by another thread at that moment consumes from that routine's stream
+    pr = repo.cls('sc3.base.main:Process')
+    rg = pr.properties.get('_rgen') if hasattr(pr, 'properties') else None
+    rg = rg or pr.methods.get('_rgen')
+    if rg is not None:
+        src_ = full(rg.node)
+        per_thread = any(t in src_ for t in ('threading.local', 'current_thread()', 'get_ident()', '_tls'))
+        ctx.ob('C10.rng', f'{rg.fq}:per-thread', per_thread,
+               'main._rgen is `current_tt._rgen` with `current_tt` a process-wide attribute: in real-time mode a draw made by the main thread while '
+               'a clock thread is inside a routine is taken from that routine\'s seeded generator (nrt is single-threaded)', rg.node, rg.module)
     n = 0
     for m in repo.modules.values():
         for node in ast.walk(m.tree):
